@@ -35,6 +35,7 @@ type vpTransport struct {
 	accepts, drains, ncloses int
 	yieldOnRead bool
 	stallWrites bool
+	onStall     func() // called once, when the first stalled write of a DATA packet begins
 	drainFails  bool
 	corrupted   int
 	beforeEOF   func()
@@ -118,6 +119,11 @@ func (t *vpTransport) WritePacket(b []byte) (int, error) {
 	}
 	if t.stallWrites {
 		// a slow client: the write is in flight while the tunnel's other goroutines run
+		if t.onStall != nil && len(b) >= 2 && b[0] == 0xA && b[1] == 0 {
+			f := t.onStall
+			t.onStall = nil
+			f()
+		}
 		vpRunTasks()
 		if !vpEqBytes(b, c) {
 			t.corrupted++
@@ -162,6 +168,7 @@ type vpConn struct {
 	writeDeadline    bool // a write deadline is in force
 	closedCh         chan struct{}
 	halfClosed       bool // CloseWrite was called
+	gate             chan struct{} // when set: the host has nothing to say before the gate is closed
 	mu       sync.Mutex // net.Conn implementations are safe for concurrent use
 }
 
@@ -169,6 +176,9 @@ var vpErrClosed = errors.New("vpConn: use of closed connection")
 var vpErrEOF = errors.New("vpConn: EOF")
 
 func (c *vpConn) Read(b []byte) (int, error) {
+	if c.gate != nil {
+		<-c.gate
+	}
 	c.mu.Lock()
 	defer c.mu.Unlock()
 	if c.closed {
